@@ -139,29 +139,41 @@ func c03Endpoint(t *testing.T, s *c03Scn, elog *c03ErrLog) (*Endpoint, string) {
 	if s.lmtp {
 		name = "lmtp"
 	}
-	mod, err := New(name, []string{"tcp://127.0.0.1:0"})
-	if err != nil {
-		t.Fatal(err)
-	}
-	endp := mod.(*Endpoint)
-	endp.resolver = &mockdns.Resolver{Zones: map[string]mockdns.Zone{
-		"1.0.0.127.in-addr.arpa.": {PTR: []string{"client.example.org"}},
-	}}
-	endp.Log = log.Logger{Name: "c03", Out: log.NopOutput{}}
-	drd := "no"
-	if s.deferred {
-		drd = "yes"
-	}
-	cfg := []config.Node{
-		{Name: "hostname", Args: []string{"mx.example.com"}},
-		{Name: "tls", Args: []string{"off"}},
-		{Name: "defer_sender_reject", Args: []string{drd}},
-		{Name: "max_received", Args: []string{strconv.Itoa(c03MaxRecv)}},
-		{Name: "max_header_size", Args: []string{strconv.Itoa(c03MaxHeader) + "b"}},
-		{Name: "buffer", Args: []string{"ram"}},
-		{Name: "deliver_to", Args: []string{"dummy"}},
-	}
-	if err := endp.Init(config.NewMap(nil, config.Node{Children: cfg})); err != nil {
+	// Listening on port 0 fails with EADDRINUSE when the machine has run out of ephemeral ports
+	// (tens of thousands of sessions in TIME_WAIT, other jobs on the host): that says nothing about
+	// the code under test - wait for ports to drain instead of failing the run.
+	var endp *Endpoint
+	for try := 0; ; try++ {
+		mod, err := New(name, []string{"tcp://127.0.0.1:0"})
+		if err != nil {
+			t.Fatal(err)
+		}
+		endp = mod.(*Endpoint)
+		endp.resolver = &mockdns.Resolver{Zones: map[string]mockdns.Zone{
+			"1.0.0.127.in-addr.arpa.": {PTR: []string{"client.example.org"}},
+		}}
+		endp.Log = log.Logger{Name: "c03", Out: log.NopOutput{}}
+		drd := "no"
+		if s.deferred {
+			drd = "yes"
+		}
+		cfg := []config.Node{
+			{Name: "hostname", Args: []string{"mx.example.com"}},
+			{Name: "tls", Args: []string{"off"}},
+			{Name: "defer_sender_reject", Args: []string{drd}},
+			{Name: "max_received", Args: []string{strconv.Itoa(c03MaxRecv)}},
+			{Name: "max_header_size", Args: []string{strconv.Itoa(c03MaxHeader) + "b"}},
+			{Name: "buffer", Args: []string{"ram"}},
+			{Name: "deliver_to", Args: []string{"dummy"}},
+		}
+		err = endp.Init(config.NewMap(nil, config.Node{Children: cfg}))
+		if err == nil {
+			break
+		}
+		if try < 60 && strings.Contains(err.Error(), "address already in use") {
+			time.Sleep(time.Second)
+			continue
+		}
 		t.Fatal(err)
 	}
 	endp.serv.ErrorLog = elog
